@@ -22,6 +22,7 @@ func init() {
 		Technique:  "runtime dispatch-table oracle over all 256x32x2 header combinations, foreign-type rejection matrix over all ordered type pairs, self-dispatch of Marshal output",
 		Rule: "dispatch: all 256 packet types x 32 count/FMT values x P in {0,1}, registered combinations with reference-valid bodies consistent with the count, all others with 8 body shapes (0..6 words, zero / ones / random) expected back as RawPacket verbatim; " +
 			"foreign: every ordered pair (T,U), T one of the 14 registered decoders, U one of 16 classes (13 other registered types, the library-dialect SLI, raw frames with unregistered FMT under 205/206, raw frames with unregistered PT) x generated well-formed U encodings; " +
+			"accepted-type: every single-bit flip beyond the header's first two octets and every aligned word replaced by capitals / magic words in valid frames of 16 registered combinations: an accepted single frame must have the registered type; " +
 			"cold start: child processes whose first decodes are made by 2..32 goroutines at once, compared with a sequential child, with and without the race detector; " +
 			"non-trivial = a frame of at least 4 octets was dispatched or handed to a foreign decoder; distinct by digest of (aspect, decoder, octets)",
 		Assumptions: []string{
@@ -82,6 +83,63 @@ func registeredBody(r *core.Rand, pt, count uint8) ([]byte, gen.Kind) {
 
 func runC07(c *core.Ctx) {
 	coldSection(c, c.N(32, 800), []string{"datagram", "compound", "own-decoder"})
+	// (0) whatever the body: an ACCEPTED single frame of a registered combination has the registered
+	// Go type. Every single-bit flip beyond the first two octets of a valid frame, and every aligned
+	// word replaced by capitals / magic words / zeros / ones: the decoder may reject such a frame,
+	// but a nil error with another type (a RawPacket, say) is a dispatch failure.
+	combos := [][2]uint8{{200, 0}, {200, 1}, {201, 0}, {201, 2}, {202, 1}, {203, 1}, {204, 3}, {205, 1}, {205, 5}, {205, 11}, {205, 15}, {206, 1}, {206, 2}, {206, 4}, {206, 15}, {207, 0}}
+	c.Section("accepted-type", uint64(len(combos))*c.N(40, 2000), func(cs *core.Case) {
+		r := cs.R
+		pc := combos[cs.Idx%uint64(len(combos))]
+		b, k := registeredBody(r, pc[0], pc[1])
+		if b == nil || len(b) > 512 {
+			return
+		}
+		judge := func(in []byte, what string) bool {
+			ps, err, pan := gUnmarshal(cloneBytes(in))
+			cs.Eval(1)
+			if pan != "" {
+				cs.Fail("panic/rtcp.Unmarshal", core.W{"input_hex": mon.Hex(in, 200), "panic": pan})
+				return false
+			}
+			if err != nil || len(ps) != 1 {
+				cs.Count("accepted-type/rejected-or-split")
+				return true
+			}
+			cs.Count("accepted-type/accepted/" + k.String())
+			cs.Distinct(core.Digest([]byte("acc"), in))
+			var kfs []string
+			if k == gen.SLI {
+				kfs = append(kfs, "KF1")
+			}
+			return cs.Check(gen.KindOf(ps[0]) == k, "dispatch/accepted-with-other-type/"+k.String(), func() core.W {
+				return core.W{"input_hex": mon.Hex(in, 200), "valid_frame_hex": mon.Hex(b, 200), "change": what, "registered_type": k.String(), "decoded": vdump(ps)}
+			}, kfs...)
+		}
+		limit := len(b)
+		if limit > 64 {
+			limit = 64
+		}
+		for off := 2; off < limit; off++ {
+			for bit := 0; bit < 8; bit++ {
+				in := cloneBytes(b)
+				in[off] ^= 1 << bit
+				if !judge(in, fmt.Sprintf("bit %d of octet %d flipped", bit, off)) {
+					return
+				}
+			}
+		}
+		words := [][]byte{[]byte("REMC"), []byte("ABCD"), []byte("ZZZZ"), []byte("REMB"), {0, 0, 0, 0}, {0xFF, 0xFF, 0xFF, 0xFF}, {0x81, 201, 0, 1}, {0x8F, 206, 0, 4}}
+		for off := 4; off+4 <= limit; off += 4 {
+			for _, w := range words {
+				in := cloneBytes(b)
+				copy(in[off:], w)
+				if !judge(in, fmt.Sprintf("word at %d replaced by %x", off, w)) {
+					return
+				}
+			}
+		}
+	})
 	// (1) dispatch: exhaustive over (pt, count, P); several bodies each
 	c.Exhaustive("dispatch: all 256 PT x 32 count/FMT x 2 padding-bit header combinations", 256*32*2)
 	reps := c.N(4, 200)
@@ -253,8 +311,8 @@ func runC07(c *core.Ctx) {
 			if T == gen.CCFB && len(in) > 1 && in[1] == 205 {
 				kfs = append(kfs, "KF4")
 			}
-			if T == gen.SLI && len(in) > 1 && in[1] == 205 && in[0]&0x1F == 2 {
-				continue // 205/2 is the SLI decoder's own pinned dialect (KF1), not a foreign packet
+			if T == gen.SLI && len(in) > 1 && in[0]&0x1F == 2 && ((in[1] == 205 && ref.LibSLI205) || in[1] == 206) {
+				continue // the SLI decoder's own packets: 206/2, and 205/2 while the library speaks that dialect (KF1): not foreign
 			}
 			cs.Check(err != nil, "foreign/"+T.String()+"-accepts/"+U.name, func() core.W {
 				return core.W{"decoder": T.String(), "foreign_class": U.name, "input_hex": mon.Hex(in, 200)}
